@@ -10,6 +10,7 @@ CONSTANTS
   MaxRules = 1
   MaxStatus = 1
   MaxRuns = 2
+  MaxReent = 0
   RulesInRun = TRUE
   Export = FALSE
   Variant = "registerFirst"
